@@ -46,7 +46,7 @@ class FakeFile:
     def absolute(self):
         return "/data/" + self.name
 
-    def open(self, mode="r"):
+    def open(self, mode="r", buffering=-1, encoding=None, errors=None, newline=None):
         assert mode == "rb"
         return io.BytesIO(self.content)
 
